@@ -1,6 +1,7 @@
 import OrixProofs.Lemmas.Disori
 import OrixProofs.Properties.C04
 import OrixModel.Disori
+import Mathlib.Tactic.FieldSimp
 /-
 C05 — fundamental-zone reduction returns a minimal-angle member of the symmetry orbit.
 
@@ -50,6 +51,65 @@ theorem large_cell_iff_max_re {Gl Gr D : List (Quat ℝ)}
     obtain ⟨d, hd, hpm⟩ := hcomplete gl hgl gr hgr
     rw [re_two_sided, ← key d _ hpm, re_eq_dot_one M]
     exact h d hd
+
+/-- the large-cell walls of a distinguished point `d` as 4-D normals: `1 + d` and `1 − d`
+(in Rodrigues space these are the planes `n·tan(ω/4)` and `−n·cot(ω/4)` that `_get_large_cell_normals` builds:
+`(s, (1−c)n) ∝ 1 + d` and `(s, −(1+c)n) ∝ 1 − d` for `d = (c, s·n)`, `s > 0`) -/
+noncomputable def wallPlus (d : Quat ℝ) : Quat ℝ := ⟨1 + d.a, d.b, d.c, d.d⟩
+noncomputable def wallMinus (d : Quat ℝ) : Quat ℝ := ⟨1 - d.a, -d.b, -d.c, -d.d⟩
+
+/-- the quarter-angle identity behind the Rodrigues planes: for `d = (c, s·n)` with `c² + s² = 1`, `s ≠ 0`:
+`tan(ω/4) = (1 − c)/s` and `cot(ω/4) = (1 + c)/s` are reciprocal -/
+theorem quarter_angle_planes (c s : ℝ) (h : c ^ 2 + s ^ 2 = 1) (hs : s ≠ 0) : (1 - c) / s * ((1 + c) / s) = 1 := by
+  field_simp
+  nlinarith
+
+/-- UNPRUNED REGION ⊆ LARGE CELL: if for every distinguished point `d` positive multiples of both walls `1 ± d` are among
+the region normals, then every `M` inside the region (all normal products ≥ 0, or all ≤ 0 — `OrientationRegion.__gt__`
+with eps = 0) satisfies `|M·d| ≤ |Re M|` for all distinguished points, i.e. (`large_cell_iff_max_re`) has the smallest
+rotation angle of its orbit. -/
+theorem inside_unpruned_region_in_large_cell {D normals : List (Quat ℝ)}
+    (hw : ∀ d ∈ D, ∃ k1 k2 : ℝ, 0 < k1 ∧ 0 < k2 ∧ Quat.scale k1 (wallPlus d) ∈ normals ∧
+      Quat.scale k2 (wallMinus d) ∈ normals)
+    (M : Quat ℝ) (hin : (∀ n ∈ normals, 0 ≤ Quat.dot n M) ∨ (∀ n ∈ normals, Quat.dot n M ≤ 0)) :
+    ∀ d ∈ D, |Quat.dot M d| ≤ |M.a| := by
+  intro d hd
+  obtain ⟨k1, k2, h1, h2, m1, m2⟩ := hw d hd
+  have e1 : Quat.dot (Quat.scale k1 (wallPlus d)) M = k1 * (M.a + Quat.dot M d) := by
+    simp only [Quat.dot, Quat.scale, wallPlus]; ring
+  have e2 : Quat.dot (Quat.scale k2 (wallMinus d)) M = k2 * (M.a - Quat.dot M d) := by
+    simp only [Quat.dot, Quat.scale, wallMinus]; ring
+  rcases hin with h | h
+  · have a1 := h _ m1
+    have a2 := h _ m2
+    rw [e1] at a1
+    rw [e2] at a2
+    have b1 : 0 ≤ M.a + Quat.dot M d := by
+      by_contra hc
+      have := mul_neg_of_pos_of_neg h1 (lt_of_not_ge hc)
+      linarith
+    have b2 : 0 ≤ M.a - Quat.dot M d := by
+      by_contra hc
+      have := mul_neg_of_pos_of_neg h2 (lt_of_not_ge hc)
+      linarith
+    rw [abs_le]
+    have : M.a ≤ |M.a| := le_abs_self _
+    constructor <;> linarith
+  · have a1 := h _ m1
+    have a2 := h _ m2
+    rw [e1] at a1
+    rw [e2] at a2
+    have b1 : M.a + Quat.dot M d ≤ 0 := by
+      by_contra hc
+      have := mul_pos h1 (lt_of_not_ge hc)
+      linarith
+    have b2 : M.a - Quat.dot M d ≤ 0 := by
+      by_contra hc
+      have := mul_pos h2 (lt_of_not_ge hc)
+      linarith
+    rw [abs_le]
+    have : -M.a ≤ |M.a| := neg_le_abs _
+    constructor <;> linarith
 
 /-- the rotation angle `2·arccos|a|` of a unit quaternion is antitone in `|a|` -/
 noncomputable def angleOf (q : Quat ℝ) : ℝ := 2 * Real.arccos |q.a|
